@@ -803,7 +803,12 @@ func (s *Step) ClientChanData(c *RawClient, num uint16, payload []byte, pad bool
 	case st == Dead:
 		e.V, e.Reason = MustDrop, "alloc-dead"
 	case st == Maybe:
+		// at the allocation's expiry instant: either outcome, but if it is relayed then by the
+		// route the binding (if any) prescribes
 		e.V, e.Reason = May, "alloc-maybe"
+		if ch, cst := a.ChanByNum(num); ch != nil && cst != Dead && !a.TCP {
+			e.To = ch.Peer
+		}
 	case a.TCP:
 		e.V, e.Reason = MustDrop, "tcp-alloc"
 	default:
@@ -866,7 +871,16 @@ func (s *Step) PeerSend(p *Peer, relay *net.UDPAddr, payload []byte) *Expect {
 	case st == Dead:
 		e.V, e.Reason = MustDrop, "alloc-dead"
 	case st == Maybe:
+		// at the allocation's expiry instant: either outcome, but if it is delivered then in an
+		// encapsulation the allocation's state (if it is still there) allows
 		e.V, e.Reason = May, "alloc-maybe"
+		if !a.TCP {
+			e.Client = a.C
+			if ch, cst := a.ChanByPeer(p.Addr.String()); ch != nil && cst != Dead {
+				e.AllowChan = ch.Num
+			}
+			e.AllowInd = a.PermState(p.Addr.IP) != Dead
+		}
 	case a.TCP:
 		e.V, e.Reason = MustDrop, "tcp-alloc"
 	default:
